@@ -92,6 +92,19 @@ CHECKS = {
              "because an integral quotient is returned exactly and a non-integral one is at least 1/(2R+1) away "
              "from every integer - is a paper argument (DESIGN.md §5 C10) supported by the exhaustive "
              "correspondence (all offsets, all cells, ranges 0..24), not a Lean theorem."),
+    "C15": dict(
+        text="Lean 4 theorems C15_openspiel and C15_gym_projection: for every simulation with a learning agent, for the "
+             "turn-based and the simultaneous manager and for every sequence of adapter calls, the model of "
+             "OpenSpielWrapper (state machine with _should_reset/current_player, _append_obs reading the inner sim, "
+             "action filtering, fake step) satisfies specC15: every learning agent present in observations, legal "
+             "actions and rewards; only actions of not-done agents forwarded; LAST iff __all__; restart after LAST; "
+             "the turn-based current player is live; every step forwards exactly one accepted manager step (no fake "
+             "step), so a play-through ends when the episode ends. GymWrapper returns exactly the single learner's "
+             "entries and never hits a KeyError under the manager protocol. Both are proved on top of the C01/C07 "
+             "manager invariant. Tie: real OpenSpielWrapper (open_spiel installed) and GymWrapper over real managers "
+             "over the stub; time steps and forwarded manager calls must equal the model's, judged by specC15.",
+        design="§5 C15", technique="Lean 4 proof (adapter invariant over call sequences, reusing the manager invariant) "
+                                   "+ differential correspondence with the real adapters"),
 }
 
 PENDING = {
